@@ -241,9 +241,13 @@ def weave_fn(it, ctx, meta, modpath, in_trait_decl=False):
     # --- body rewriting ---------------------------------------------------------------------
     if mut_self:
         body = [Tok(t.kind, "this", t.line) if (t.kind == "ident" and t.text == "self") else t for t in body]
-    # loops: insert invariants (from last to first so indices stay valid)
-    loops = find_loops(body)
-    if ent:
+    btxt = text_of(body)
+    if not (ent and ent.raw):
+        btxt = rules.apply_body_rules(btxt, it, ctx, key, header_text=htxt)
+    # loops: insert invariants (from last to first so indices stay valid); ordinals refer to the rewritten body
+    if ent and ent.loops:
+        body = lex(btxt)
+        loops = find_loops(body)
         for n in sorted(ent.loops.keys(), reverse=True):
             if n > len(loops):
                 raise GenError("lost anchor: %s has %d loops, overlay wants loop %d" % (key, len(loops), n))
@@ -255,7 +259,6 @@ def weave_fn(it, ctx, meta, modpath, in_trait_decl=False):
             if lo["iter"]:
                 if body[li].text != "for":
                     raise GenError("lost anchor: loop %d of %s is not a for loop" % (n, key))
-                # for PAT in EXPR  -> for PAT in it: EXPR
                 j = li + 1
                 depth = 0
                 while not (body[j].kind == "ident" and body[j].text == "in" and depth == 0):
@@ -265,9 +268,7 @@ def weave_fn(it, ctx, meta, modpath, in_trait_decl=False):
                         depth -= 1
                     j += 1
                 body.insert(j + 1, Tok("ws", " %s: " % lo["iter"], body[j].line))
-    btxt = text_of(body)
-    if not (ent and ent.raw):
-        btxt = rules.apply_body_rules(btxt, it, ctx, key, header_text=htxt)
+        btxt = text_of(body)
     if ent:
         for n, lines in ent.closures.items():
             btxt = rules.replace_closure_header(btxt, n, "\n".join(l.strip() for l in lines), key)
